@@ -97,8 +97,8 @@ Definition validate_prim (p : pval) : bool :=
   | VInt v => (- TWO31 <=? v) && (v <=? TWO31 - 1)
   | VLong v | VDate v => (- TWO63 <=? v) && (v <=? TWO63 - 1)
   | VBig _ | VBool _ | VBytes _ | VText _ => true
-  | VEnum v => (0 <=? v) && (v <=? TWO32)        (* Enumeration.MAX = 4294967296 in the source *)
-  | VInterval v => (0 <=? v) && (v <=? TWO32)    (* Interval.MAX    = 4294967296 in the source *)
+  | VEnum v => (0 <=? v) && (v <=? TWO32 - 1)    (* Enumeration.MAX = 4294967295 *)
+  | VInterval v => (0 <=? v) && (v <=? TWO32 - 1)  (* Interval.MAX = 4294967295 *)
   end.
 
 (* ---------- decoders ---------- *)
